@@ -72,6 +72,75 @@ Proof.
     destruct C as (r & t & -> & Hn). destruct lo; [lia|]. cbn [firstn]. eauto.
 Qed.
 
+Lemma zero_slots_end_view : forall P hi f A,
+  fview P f A [] -> A <> [] -> f_n f <= hi -> fview P (zero_slots hi (N.of_nat (length A)) f) A [].
+Proof.
+  intros P hi f A V HA Hhi.
+  assert (Hrows : f_rows f = [] ++ rev A) by (rewrite (fv_rows _ _ _ _ V), app_nil_r; reflexivity).
+  pose proof (fv_good _ _ _ _ V) as G.
+  destruct (zero_slots_rows hi (N.of_nat (length A)) f [] (rev A) Hrows ltac:(now rewrite rev_length) (fv_rows_ok _ _ _ _ V) Hhi) as [Z1 Z2].
+  { destruct (rev A) as [|g t] eqn:E; [exact I|].
+    assert (Hin : In g A) by (apply in_rev; rewrite E; now left).
+    rewrite Forall_forall in G. eapply good_live. exact (G g Hin). }
+  constructor.
+  - rewrite asc_rows_rev, Z1, rev_involutive, app_nil_r. reflexivity.
+  - rewrite Z2, app_nil_r. reflexivity.
+  - rewrite Z2. pose proof (fv_max _ _ _ _ V). pose proof (fv_n _ _ _ _ V) as Hn. rewrite app_nil_r in Hn. lia.
+  - exact G.
+  - constructor.
+  - exact (fv_offs _ _ _ _ V).
+  - unfold zero_slots. cbn [f_c0]. destruct (N.of_nat (length A) =? 0) eqn:E; [exact I|]. exact (fv_c0 _ _ _ _ V).
+Qed.
+
+(* clearing [m, hi) of a file without dead rows, for ANY m: the live rows below m stay, nothing else *)
+Lemma zero_slots_view_any : forall P hi f A m,
+  fview P f A [] -> f_n f <= hi -> fview P (zero_slots hi m f) (firstn (N.to_nat m) A) [].
+Proof.
+  intros P hi f A m V Hhi.
+  destruct (Nat.ltb (N.to_nat m) (length A)) eqn:E.
+  - apply Nat.ltb_lt in E. replace m with (N.of_nat (N.to_nat m)) at 1 by lia. now apply (zero_slots_view P hi (N.to_nat m) f A []).
+  - apply Nat.ltb_ge in E. rewrite firstn_all2 by lia.
+    pose proof (fv_n _ _ _ _ V) as Hn. rewrite app_nil_r in Hn.
+    pose proof (fv_good _ _ _ _ V) as G.
+    assert (Hrows : f_rows (zero_slots hi m f) = f_rows f /\ f_n (zero_slots hi m f) = f_n f).
+    { unfold zero_slots. cbn [f_rows f_n]. rewrite map_pos_spec.
+      rewrite map_with_pos_id.
+      - assert (T : trim_zero (f_rows f) = f_rows f).
+        { rewrite (fv_rows _ _ _ _ V), app_nil_r. destruct (rev A) as [|g t] eqn:Er; [reflexivity|].
+          cbn [trim_zero]. assert (Hin : In g A) by (apply in_rev; rewrite Er; now left).
+          rewrite Forall_forall in G. rewrite (live_not_zero g (good_live _ _ (G g Hin))). reflexivity. }
+        rewrite T. split; [reflexivity|]. symmetry. exact (fv_rows_ok _ _ _ _ V).
+      - intros p x Hp. rewrite (fv_rows _ _ _ _ V), rev_length, app_nil_r in Hp.
+        destruct (m <=? p) eqn:E1; [lia|reflexivity]. }
+    destruct Hrows as [R1 R2].
+    constructor.
+    + rewrite asc_rows_rev, R1, <- asc_rows_rev. exact (fv_asc _ _ _ _ V).
+    + rewrite R2. exact (fv_n _ _ _ _ V).
+    + rewrite R2. exact (fv_max _ _ _ _ V).
+    + exact G.
+    + constructor.
+    + exact (fv_offs _ _ _ _ V).
+    + unfold zero_slots. cbn [f_c0]. destruct (m =? 0) eqn:E0; [exact I|]. exact (fv_c0 _ _ _ _ V).
+Qed.
+
+Lemma clear_part_view : forall P hi c f A,
+  fview P f A [] -> f_n f <= hi -> fview P (clear_part hi c f) (firstn (N.to_nat (hi - c)) A) [] \/
+                                    (c = 0 /\ clear_part hi c f = f).
+Proof.
+  intros P hi c f A V Hhi. unfold clear_part. destruct (c =? 0) eqn:E; [right; split; [lia|reflexivity]|left].
+  now apply zero_slots_view_any.
+Qed.
+
+Lemma clear_part_view_all : forall P hi c f A,
+  fview P f A [] -> f_n f <= hi -> fview P (clear_part hi c f) (firstn (N.to_nat (hi - c)) A) [].
+Proof.
+  intros P hi c f A V Hhi. destruct (clear_part_view P hi c f A V Hhi) as [H|[-> ->]]; [exact H|].
+  pose proof (fv_n _ _ _ _ V) as Hn. rewrite app_nil_r in Hn. rewrite firstn_all2 by lia. exact V.
+Qed.
+
+Lemma clears_end_zeroslots : forall P, clears_end VZeroSlots P.
+Proof. intros P endb hi f A V HA Hhi. cbn [clear_slots]. now apply zero_slots_end_view. Qed.
+
 Lemma clears_zeroslots : forall P, clears VZeroSlots P true.
 Proof.
   intros P endb hi lo f A D V Hlo _ _ Hhi. cbn [clear_slots]. exists []. split; [cbn; lia|]. split; [reflexivity|].
@@ -83,24 +152,8 @@ Qed.
 Definition alivef (d : disk) : Prop := Forall all_live (d_files d).
 Definition dinvz (P : params) (i0 : N) (d : disk) (Ac : list row) : Prop := dinv P i0 d Ac /\ alivef d.
 
-Lemma all_live_rows : forall f g, f_rows g = f_rows f -> all_live f -> all_live g.
-Proof. intros f g H. unfold all_live. now rewrite H. Qed.
 
-Lemma Forall_all_live_rows : forall a b, map f_rows a = map f_rows b -> Forall all_live b -> Forall all_live a.
-Proof.
-  induction a as [|x a IH]; intros [|y b] H Hb; try discriminate; [constructor|].
-  cbn [map] in H. injection H as H1 H2. inversion Hb; subst. constructor; [now apply (all_live_rows y)|now apply (IH b)].
-Qed.
 
-(* a file that is all live has no dead rows in any view *)
-Lemma all_live_no_dead : forall P f A D, fview P f A D -> all_live f -> D = [].
-Proof.
-  intros P f A D V H. unfold all_live in H. rewrite (fv_rows _ _ _ _ V), forallb_rev, forallb_app in H.
-  apply andb_true_iff in H as [_ H]. destruct D as [|g t]; [reflexivity|].
-  cbn [forallb] in H. apply andb_true_iff in H as [H _].
-  pose proof (fv_dead _ _ _ _ V) as HD. inversion HD as [|? ? [Hg _] _]; subst.
-  unfold live_row in H. rewrite Hg in H. discriminate.
-Qed.
 
 (* reads only touch the cached length of slot 0 *)
 Lemma scan_file_rows : forall P hi max f p size acc, f_rows (snd (scan_file P hi max f p size acc)) = f_rows f.
@@ -229,8 +282,8 @@ Proof.
   { destruct es as [|e0 r].
     - exists i0, Ac. cbn [add_entries s_append]. auto.
     - cbn [valid_op] in Hv. destruct Hv as (Ces & Hb & Hfit & Hrange). change (a_ents (abs d)) with (log_of d) in Hrange.
-      destruct (add_entries_inv VZeroSlots P true HP (clears_zeroslots P) d i0 Ac e0 r I Ces Hb Hfit Hrange)
-        as (a & b & X1 & X2 & X3 & X4).
+      destruct (add_entries_inv VZeroSlots P true HP (clears_zeroslots P) d i0 Ac e0 r I (or_introl (clears_end_zeroslots P)) Ces Hb Hfit Hrange)
+        as (a & b & X1 & X2 & X3 & X4 & _).
       exists a, b. split; [exact X1|]. split; [exact X2|]. split; [exact X3|]. now apply X4. }
   destruct H as (i0' & Ac' & I' & L' & M' & A').
   set (d1 := add_entries VZeroSlots P es d) in *.
